@@ -3,7 +3,7 @@
 # under detected_by (or its own property's check) against a scratch worktree at /repo HEAD with the change applied.
 export GOFLAGS=-mod=mod GOPROXY=off GOSUMDB=off GOTOOLCHAIN=local
 for name in "$@"; do
-  d=/verif/seeded/$name; id=${name%%-*}; WT=/tmp/mut/$id
+  d=/verif/seeded/$name; id=${name%%-*}; WT=${MUTROOT:-/tmp/mut}/$id
   git -C $WT reset -q --hard; git -C $WT checkout -q --detach "$(git -C /repo rev-parse HEAD)"
   git -C $WT apply $d/patch.diff 2>/dev/null || git -C $WT apply -3 $d/patch.diff 2>/dev/null || { echo "$name PATCH-DOES-NOT-APPLY"; git -C $WT reset -q --hard; continue; }
   if ! (cd $WT && go build ./... >/dev/null 2>&1); then echo "$name DOES-NOT-BUILD"; git -C $WT reset -q --hard; continue; fi
